@@ -27,7 +27,7 @@ T0 = time.time()
 RAFTSIM_SRC = os.path.join(common.ROOT, "raftsim")
 ATTACK_FILE = os.path.join(common.SPEC, "EtcdRaft_attacks.json")
 FLAGS_CHEAP = ["VoteIgnoreVoted", "NoPersistVote", "VoteIgnoreLog", "QuorumMinusOne"]
-FLAGS_ALL = FLAGS_CHEAP + ["HeartbeatCommit", "AppendTruncates"]   # CommitAnyTerm: BFS of ~1 h, stored schedule only
+FLAGS_ALL = FLAGS_CHEAP + ["HeartbeatCommit", "AppendTruncates", "CommitAnyTerm"]
 ATTACK_OPT = {"CommitAnyTerm": {"maxents": 1}}
 
 
@@ -315,8 +315,8 @@ def main():
     atk_jobs = {}
     live_flags = FLAGS_CHEAP if QUICK else FLAGS_ALL
     for fl in live_flags:
-        heavy = fl in ("AppendTruncates", "HeartbeatCommit")
-        atk_jobs[fl] = pool.submit(tlc_attack, fl, 3 if heavy else 1, 900 if heavy else 300)
+        heavy = fl in ("AppendTruncates", "HeartbeatCommit", "CommitAnyTerm")
+        atk_jobs[fl] = pool.submit(tlc_attack, fl, 4 if heavy else 1, 1000 if heavy else 300)
 
     # ---- 3. random runs on the real code
     nfiles = 12 if QUICK else 16
